@@ -1,6 +1,10 @@
 """C02 - dictable.join is the relational inner/cross join and xor the anti-join; both terminate; operands unchanged."""
 import datetime, functools, itertools, json, math, os
 from fractions import Fraction
+try:
+    import numpy as NP
+except Exception:
+    NP = None
 from implutil import dt2us, us2dt, err_name
 
 ID = 'C02'
@@ -11,7 +15,7 @@ COQ_PRELUDE = '''Definition run_both (c : ctable * ctable * spec * spec) : J :=
   let '(x, y, lc, rc) := c in JL [run_join (x, y, lc, rc, MLeft); run_xor (x, y, lc, rc, false)].
 '''
 PER_FILE = 500
-CASE_TIMEOUT = 2.5
+CASE_TIMEOUT = 4
 # xor with NO key column returns x.copy() whatever y holds (pinned by tests/test_dictable.py::test_dictable_xor_no_rhs);
 # by the letter of the property the empty key matches every row of y, so the result should be empty when y has rows.
 # KNOWN FINDING: the oracle flags it (switch on by default); KNOWN_FINDINGS.json downgrades exactly that input class
@@ -48,14 +52,25 @@ TECHNIQUE = 'Coq proof (induction on the fuelled merge, refinement to a one-step
 
 # ------------------------------------------------------------------ cells
 D1 = dt2us(datetime.datetime(2020, 1, 1)); D2 = dt2us(datetime.datetime(2021, 6, 15, 12))
+D3 = D1 + 1                                             # one microsecond later
+D4 = dt2us(datetime.datetime(1970, 1, 1, 0, 0, 0, 1)); D5 = dt2us(datetime.datetime(2999, 12, 31, 23, 59, 59, 999999)); D6 = dt2us(datetime.datetime(1, 1, 2))
+
+SCALE = 2 ** 80          # numbers travel to Coq as value * 2^80: exact for every int and every float >= 2^-80 in magnitude
+def scaled(v):
+    q = Fraction(v) * SCALE
+    if q.denominator != 1: raise TypeError('number %r is not a multiple of 2^-80' % (v,))
+    return int(q)
 
 def py_cell(c, nans):
+    """cell of the case -> python object; nans: id -> NaN object (one object per id); nans.get('np') -> numpy floats"""
     if c is None: return None
     t, v = c
     if t == 'i': return int(v)
-    if t == 'f': return v / 2.0
+    if t in ('f', 'x'):
+        r = v / 2.0 if t == 'f' else float.fromhex(v)
+        return NP.float64(r) if nans.get('np') else r
     if t == 'nan':
-        if v not in nans: nans[v] = float('nan') if v else float('nan') * 1
+        if v not in nans: nans[v] = NP.float64('nan') if nans.get('np') else float('nan')
         return nans[v]
     if t == 's': return v
     if t == 'd': return us2dt(v)
@@ -64,8 +79,9 @@ def py_cell(c, nans):
 def coq_cell(c):
     if c is None: return 'CNone'
     t, v = c
-    if t == 'i': return '(CNum false (%d))' % (2 * v)
-    if t == 'f': return '(CNum true (%d))' % v
+    if t == 'i': return '(CNum false (%d))' % (v * SCALE)
+    if t == 'f': return '(CNum true (%d))' % (v * SCALE // 2)
+    if t == 'x': return '(CNum true (%d))' % scaled(float.fromhex(v))
     if t == 'nan': return '(CNaN %d%%N)' % v
     if t == 's': return '(CStr [%s])' % '; '.join(str(ord(ch)) for ch in v)
     if t == 'd': return '(CDate (%d))' % v
@@ -87,20 +103,21 @@ def coq_item(it):
 def py_spec(s):
     if s is None: return None
     if s[0] == 'list': return [py_item(i) for i in s[1]]
+    if s[0] == 'tuple': return tuple(py_item(i) for i in s[1])
     return py_item(s)
 def coq_spec(s):
     if s is None: return 'SNone'
-    if s[0] == 'list': return '(SList [%s])' % '; '.join(coq_item(i) for i in s[1])
+    if s[0] in ('list', 'tuple'): return '(SList [%s])' % '; '.join(coq_item(i) for i in s[1])
     return '(SOne %s)' % coq_item(s)
 def spec_items(s):
     if s is None: return None
-    return list(s[1]) if s[0] == 'list' else [s]
+    return list(s[1]) if s[0] in ('list', 'tuple') else [s]
 
-JMODES = {'none': (None, 'MNone'), 'l': ('l', 'MLeft'), 'left': ('left', 'MLeft'), '0': (0, 'MLeft'),
+JMODES = {'none': (None, 'MNone'), 'l': ('l', 'MLeft'), 'left': ('left', 'MLeft'), '0': (0, 'MLeft'), 'L': ('L', 'MLeft'), 'lhs': ('lhs', 'MLeft'), 'RHS': ('RHS', 'MRight'),
           'r': ('r', 'MRight'), 'right': ('right', 'MRight'), '1': (1, 'MRight'),
           'coalesce': ('lambda l, r: r if l is None else l', 'MCoalesce'), 'swap': ('lambda l, r: (r, l)', 'MSwap')}
 XMODES = {'default': ('l', False), 'none': (None, False), 'l': ('l', False), '0': (0, False), 'left': ('left', False),
-          'r': ('r', True), '1': (1, True), 'right': ('right', True)}
+          'r': ('r', True), '1': (1, True), 'right': ('right', True), 'R': ('R', True), 'Lhs': ('Lhs', False)}
 def py_jmode(m):
     v = JMODES[m][0]
     return eval(v) if m in ('coalesce', 'swap') else v
@@ -123,11 +140,8 @@ def enc(v, tagged):
         return ['t'] + [enc(e, tagged) for e in v]
     if isinstance(v, bool): raise TypeError('bool cell')
     if isinstance(v, float) and v != v: return 'NaN'
-    if isinstance(v, int): return ['i' if tagged else 'n', 2 * int(v)]
-    if isinstance(v, float):
-        tw = v * 2
-        if tw != int(tw): raise TypeError('not a half-integer: %r' % v)
-        return ['f' if tagged else 'n', int(tw)]
+    if isinstance(v, int): return ['i' if tagged else 'n', int(v) * SCALE]
+    if isinstance(v, float): return ['f' if tagged else 'n', scaled(v)]
     if isinstance(v, str): return ['s', [ord(ch) for ch in v]]
     if isinstance(v, datetime.datetime): return ['d', dt2us(v)]
     raise TypeError('cell %r' % (v,))
@@ -157,7 +171,7 @@ def cell_eq(a, b):
     if a is None or b is None: return a is None and b is None
     if is_num(a) and is_num(b):
         if a != a or b != b: return a != a and b != b
-        return a == b
+        return Fraction(a) == Fraction(b)           # exact, also for numpy floats (np.float64(2**53) == 2**53+1 is True in numpy)
     if is_num(a) or is_num(b): return False
     if type(a) is not type(b): return False
     return a == b
@@ -221,7 +235,9 @@ def expected_join(xc, xd, yc, yd, li, ri, mode):
                     if c not in shared: row[c] = canon(yd[c][j], True)
                 for c in shared:
                     l, r = xd[c][i], yd[c][j]
-                    v = l if f in ('l', 'left', 0) else r if f in ('r', 'right', 1) else (l, r) if f is None else f(l, r)
+                    is_l = (isinstance(f, str) and f[:1].lower() == 'l') or (isinstance(f, int) and f == 0)
+                    is_r = (isinstance(f, str) and f[:1].lower() == 'r') or (isinstance(f, int) and f == 1)
+                    v = l if is_l else r if is_r else (l, r) if f is None else f(l, r)
                     row[c] = canon(v, True)
                 rows.append(row)
     return cols, sorted(set(cols) | set(lo) | set(ro)), rows, lk, rk
@@ -242,10 +258,11 @@ def impl_setup():
     logging.disable(logging.CRITICAL)
     from pyg_base import dictable
 
-def build(t, nans):
+def build(t, nans, plain=False):
     cols = [n for n, _ in t]
     data = {n: [py_cell(c, nans) for c in col] for n, col in t}
-    return cols, data, dictable(**{n: list(v) for n, v in data.items()})
+    d = {n: list(v) for n, v in data.items()}
+    return cols, data, (d if plain else dictable(d))
 def snapshot(tb): return [(k, list(v)) for k, v in tb.items()]
 def unchanged(tb, snap):
     now = [(k, v) for k, v in tb.items()]
@@ -287,8 +304,8 @@ def check_xor(case, res, xc, xd, yc, yd, right):
     return None
 
 def impl(case):
-    nans = {}
-    xc, xd, x = build(case['x'], nans); yc, yd, y = build(case['y'], nans)
+    nans = {'np': True} if case.get('npfloat') else {}
+    xc, xd, x = build(case['x'], nans); yc, yd, y = build(case['y'], nans, plain=bool(case.get('ydict')))      # ydict: the right operand is a plain dict of lists
     sx, sy = snapshot(x), snapshot(y)
     why_invalid = validity(case)
     kind = case['kind']
@@ -357,7 +374,8 @@ def shape(case):
     nk = 'auto' if li is None else str(len(li))
     fun = 'f' if any(it[0] == 'fun' for it in (li or []) + (spec_items(case['rcols']) or [])) else ''
     nan = 'nan' if any(c and c[0] == 'nan' for t in (case['x'], case['y']) for _, col in t for c in col) else ''
-    return '%s:%s:k%s%s%s%s' % (case['kind'], case.get('stream', '?'), nk, fun, nan, ':op' if case.get('via') == 'op' else '')
+    flags = ''.join(f for f, on in (('N', case.get('renamed')), ('D', case.get('ydict')), ('P', case.get('npfloat'))) if on)
+    return '%s:%s:k%s%s%s%s%s' % (case['kind'], case.get('stream', '?'), nk, fun, nan, ':op' if case.get('via') == 'op' else '', ':' + flags if flags else '')
 
 def shrink(case):
     if case.get('stream') == 'seed':
@@ -383,8 +401,9 @@ def shrink(case):
 POOLS = {
     'int': [['i', 0], ['i', 1], ['i', 2], ['i', 3]],
     'num': [['i', 0], ['i', 1], ['f', 2], ['i', 2], ['f', 3], ['f', 4]],          # 1 and 1.0 (twice=2), 1.5, 2 and 2.0
-    'str': [['s', 'a'], ['s', 'b'], ['s', 'ab'], ['s', '']],
-    'date': [['d', D1], ['d', D2]],
+    'str': [['s', 'a'], ['s', 'b'], ['s', 'ab'], ['s', ''], ['s', 'B'], ['s', 'a b'], ['s', '\u00e9t\u00e9'], ['s', '\u4e2d'], ['s', 'a' * 40], ['s', '10'], ['s', '9']],
+    'date': [['d', D1], ['d', D2], ['d', D3], ['d', D4], ['d', D5], ['d', D6]],
+    'frac': [['x', (0.1).hex()], ['x', (0.3).hex()], ['x', (0.1 + 0.2).hex()], ['x', (1 / 3).hex()], ['x', (-2.75).hex()], ['x', (-0.0).hex()], ['i', 0], ['x', (1e-6).hex()], ['x', (1e15 + 0.5).hex()], ['i', -3]],
     'mixed': [None, ['i', 0], ['i', 1], ['f', 2], ['i', 2], ['f', 3], ['s', 'a'], ['s', 'b'], ['d', D1], ['d', D2]],
     'none': [None, None, ['i', 1], ['f', 2], ['s', 'a']],
     'big': [['i', 2**53], ['i', 2**53 + 1], ['i', 2**53 + 2], ['i', -(2**53) - 1], ['f', 2 * 2**53], ['f', 2 * (2**53 + 2)], ['i', -(2**53)]],
@@ -392,7 +411,7 @@ POOLS = {
     'nan': [['nan', 1], ['nan', 2], ['nan', 3], ['i', 1], ['f', 2], ['i', 0]],
     'nanmixed': [['nan', 1], ['nan', 2], ['nan', 3], None, ['i', 1], ['f', 2], ['s', 'a'], ['d', D1]],
 }
-VALS = [None, ['i', 5], ['i', 6], ['f', 11], ['s', 'p'], ['s', 'q'], ['i', 7]]
+VALS = [None, ['i', 5], ['i', 6], ['f', 11], ['s', 'p'], ['s', 'q'], ['i', 7], ['d', D3], ['x', (0.1).hex()], ['s', '']]
 
 def rand_col(rng, pool, n):
     sub = rng.sample(POOLS[pool], min(len(POOLS[pool]), rng.choice([1, 2, 2, 3, 3, 4])))
@@ -403,7 +422,7 @@ def rand_case(rng, stream, kind=None):
     nx = rng.choice([0, 1, 2, 3, 3, 4, 5, 6]); ny = rng.choice([0, 1, 2, 3, 3, 4, 5, 6])
     nk = rng.choice([0, 1, 1, 1, 2, 2, 3])
     knames = ['a', 'b', 'c'][:nk]
-    pools = [rng.choice(['nan', 'nanmixed'] if (nan and k == 0) else ['int', 'num', 'num', 'str', 'date', 'mixed', 'mixed', 'none', 'big', 'bigmixed']) for k in range(nk)]
+    pools = [rng.choice(['nan', 'nanmixed'] if (nan and k == 0) else ['int', 'num', 'num', 'str', 'date', 'mixed', 'mixed', 'none', 'big', 'bigmixed', 'frac']) for k in range(nk)]
     x = [[k, rand_col(rng, p, nx)] for k, p in zip(knames, pools)]
     y = [[k, rand_col(rng, p, ny)] for k, p in zip(knames, pools)]
     # other columns: v is shared (mode matters), d only left, e only right
@@ -461,6 +480,60 @@ def rand_case(rng, stream, kind=None):
         case['mode'] = rng.choice(list(XMODES))
     if kind in ('join', 'xor') and case['lcols'] is None and case['rcols'] is None and rng.random() < 0.5:
         case['via'] = 'op'; case['mode'] = 'none' if kind == 'join' else 'default'
+    # more spellings: tuples instead of lists; lcols=None with rcols spelled out (the shared columns, in x's order)
+    for side in ('lcols', 'rcols'):
+        if case[side] is not None and case[side][0] == 'list' and rng.random() < 0.2:
+            case[side] = ['tuple', case[side][1]]
+    if case['lcols'] is None and case['via'] == 'method' and rng.random() < 0.3:
+        shared = [n for n, _ in x if n in [m for m, _ in y]]
+        case['rcols'] = ['list', [['col', n] for n in shared]] if len(shared) != 1 or rng.random() < 0.5 else ['col', shared[0]]
+    if rng.random() < 0.1: case['ydict'] = True           # right operand given as a plain dict of lists
+    if rng.random() < 0.1: case['npfloat'] = True         # floats / NaN as numpy.float64 objects
+    if rng.random() < 0.3: rename_columns(rng, case)
+    return case
+
+NAMES = {'a': ['Alpha', 'k_1', 'zz', 'A'], 'b': ['b_2', 'Beta', 'B'], 'c': ['zC', 'c3', '_c'], 'v': ['data', 'Value', 'columns', 'v2'],
+         'w': ['self', 'w_w', 'Z'], 'd': ['col d', 'left-only', 'D'], 'e': ['right only', 'E', 'e.1'], 'k': ['key', 'K9'], 'id': ['id', 'row id', 'ID']}
+def rename_columns(rng, case):
+    """column names of every kind: long, upper case (sorts before lower case), digits / underscore, constructor keywords (data, columns),
+    and - for columns no callable refers to - names that are not identifiers (spaces, dash, dot)"""
+    used_by_fun = set()
+    for sp in (case['lcols'], case['rcols']):
+        for it in spec_items(sp) or []:
+            if it[0] == 'fun': used_by_fun.update(it[2])
+    have = {n for t in (case['x'], case['y']) for n, _ in t}
+    m = {}
+    for n in have:
+        # a column called 'self' cannot coexist with a computed key: Dict.apply passes the row as **kwargs (TypeError: multiple values for 'self')
+        opts = [o for o in NAMES.get(n, [n]) if (o.isidentifier() or n not in used_by_fun) and not (o == 'self' and used_by_fun)]
+        m[n] = rng.choice(opts) if opts and rng.random() < 0.8 else n
+    if len(set(m.values())) < len(m): return              # keep the renaming injective
+    for side in ('x', 'y'):
+        case[side] = [[m[n], col] for n, col in case[side]]
+    def ren_item(it): return ['col', m.get(it[1], it[1])] if it[0] == 'col' else ['fun', it[1], [m.get(a, a) for a in it[2]]]
+    for sp in ('lcols', 'rcols'):
+        v = case[sp]
+        if v is None: continue
+        case[sp] = [v[0], [ren_item(i) for i in v[1]]] if v[0] in ('list', 'tuple') else ren_item(v)
+    case['renamed'] = True
+
+def large_case(rng):
+    """tables of 70-180 rows: the sort leaves its small-list path (n >= 64), long merges, long groups"""
+    nx = rng.randrange(70, 181); ny = rng.randrange(70, 181)
+    K = max(nx, ny) * 2 // 3
+    pool = [['i', i] for i in range(K)]
+    if rng.random() < 0.6:                                # mixed types: sort takes the Cmp path
+        pool = pool[: K // 2] + [['s', 's%d' % i] for i in range(K // 3)] + [None, ['f', 3], ['f', 2 * 7], ['d', D1], ['d', D3]]
+    xk = [rng.choice(pool) for _ in range(nx)]; yk = [rng.choice(pool) for _ in range(ny)]
+    x = [['a', xk], ['v', [['i', 1000 + i] for i in range(nx)]]]; y = [['a', yk], ['u', [['i', 5000 + j] for j in range(ny)]]]
+    if rng.random() < 0.5:
+        x.append(['b', [['i', rng.randrange(2)] for _ in range(nx)]]); y.append(['b', [['i', rng.randrange(2)] for _ in range(ny)]])
+    kind = rng.choice(['join', 'xor', 'both'])
+    if kind == 'both': x.append(['id', [['i', 100000 + i] for i in range(nx)]])
+    keys = [['col', n] for n, _ in x if n in ('a', 'b')]
+    case = {'kind': kind, 'stream': 'large', 'x': x, 'y': y, 'via': 'method', 'lcols': ['list', keys], 'rcols': None}
+    if kind == 'join': case['mode'] = rng.choice(['none', 'l', 'r'])
+    elif kind == 'xor': case['mode'] = rng.choice(['default', 'r'])
     return case
 
 FINITE = [['i', 0], ['i', 1], ['f', 2], ['i', 2], ['f', 3], ['i', 3], ['i', -1], ['f', 5]]
@@ -550,6 +623,8 @@ def gen_cases(rng, tier):
         cases.append(nan_numeric_case(rng))
     for _ in range(400 if q else 4000):
         cases.append(m2m_shared_case(rng))
+    for _ in range(12 if q else 80):
+        cases.append(large_case(rng))
     for _ in range(120 if q else 1500):
         cases.append(malformed(rng))
     ex = exhaustive_small()
